@@ -54,6 +54,7 @@ type World struct {
 	God           int
 	Allocs        []Alloc
 	Clock         *vclock.Clock
+	IpfsFaults    bool // nodes get a content store whose Add can be made to fail (FaultIpfs)
 	Cons          *config.ConsensusConf
 	ValCfg        *config.ValidationConfig
 	FirstCeremony int64
@@ -189,6 +190,9 @@ func (w *World) Boot(key int, db dbm.DB, ipfsStore ipfs.Proxy) *Node {
 	n.Upgrader = upgrade.NewUpgrader(cfg, app, db)
 	if ipfsStore == nil {
 		ipfsStore = ipfs.NewMemoryIpfsProxy()
+		if w.IpfsFaults {
+			ipfsStore = &FaultIpfs{Proxy: ipfsStore}
+		}
 	}
 	n.Ipfs = ipfsStore
 	n.Chain = blockchain.NewBlockchain(cfg, db, n.Pool, app, ipfsStore, n.Sec, n.Bus, n.Offline, ks, sub, n.Upgrader)
